@@ -156,7 +156,7 @@ T('C08', 'twin-window-names', SI, "        imin = max(i - u, 0)\n        imax = 
 M('C09', 'accumulated-wrong-state', DYN, "                    val = q + TAB_VAL[k - 1][m]", "                    val = q + TAB_VAL[k - 1][l]", 'C09.V')
 M('C09', 'emission-sign', DYN, "                p = -self.Plog(s2, y, k, track)\n                TAB_MRK[k][l] = best_ant", "                p = self.Plog(s2, y, k, track)\n                TAB_MRK[k][l] = best_ant", 'C09.V')
 M('C09', 'backpointer-before-write', DYN, "            track.setObsAnalyticalFeature(\"hmm_inference\", k, STATES[k][idk])\n            track.setObsAnalyticalFeature(\"hmm_cost\", k, TAB_VAL[k][idk])\n            if mode in [3, 4, 5]:\n                track[k].position = STATES[k][idk]\n            idk = TAB_MRK[k][idk]",
-  "            idk = TAB_MRK[k][idk]\n            track.setObsAnalyticalFeature(\"hmm_inference\", k, STATES[k][idk])\n            track.setObsAnalyticalFeature(\"hmm_cost\", k, TAB_VAL[k][idk])\n            if mode in [3, 4, 5]:\n                track[k].position = STATES[k][idk]", 'C09.R')
+  "            idk = TAB_MRK[k][idk]\n            track.setObsAnalyticalFeature(\"hmm_inference\", k, STATES[k][idk])\n            track.setObsAnalyticalFeature(\"hmm_cost\", k, TAB_VAL[k][idk])\n            if mode in [3, 4, 5]:\n                track[k].position = STATES[k][idk]", 'C09.V')
 M('C09', 'final-argmax', DYN, "        idk = np.argmin(TAB_VAL[-1])", "        idk = np.argmax(TAB_VAL[-1])", 'C09.V')
 T('C09', 'twin-forward-rename', DYN, "                    s1 = STATES[k - 1][m]\n                    q = -self.Qlog(s1, s2, k - 1, track)\n                    val = q + TAB_VAL[k - 1][m]",
   "                    previous = STATES[k - 1][m]\n                    s1 = previous\n                    cost = -self.Qlog(previous, s2, k - 1, track)\n                    q = cost\n                    val = TAB_VAL[k - 1][m] + cost")
@@ -189,7 +189,10 @@ M('C13', 'subst-misaligned', OT, "            self.hour,\n            self.hour,
 # ---------------------------------------------------------------- C14
 M('C14', 'enu-sign', OC, "        enu.E = -x * slon + y * clon", "        enu.E = x * slon + y * clon", 'C14.R')
 M('C14', 'ecef-height', OC, "        xyz.X = (n + hgt) * math.cos(lat) * math.cos(lon)", "        xyz.X = (n - hgt) * math.cos(lat) * math.cos(lon)", 'C14.E')
-M('C14', 'lambert-constant', OC, "def _projToLambert93(coords) -> ENUCoords:   \n    \"\"\"TODO\"\"\"\n\n    E = 0.08181919106  #: TODO", "def _projToLambert93(coords) -> ENUCoords:   \n    \"\"\"TODO\"\"\"\n\n    E = 0.0818191910428  #: TODO", 'C14.K')
+# (the eccentricity of the forward projection set to the WGS84 value, 3e-12 away from the GRS80 one the inverse uses: the round trip moves by
+#  2e-11 degree, inside the 1e-9 degree the property allows - a change the property does not forbid, so the check stays silent)
+T('C14', 'lambert-constant-within-tolerance', OC, "def _projToLambert93(coords) -> ENUCoords:   \n    \"\"\"TODO\"\"\"\n\n    E = 0.08181919106  #: TODO", "def _projToLambert93(coords) -> ENUCoords:   \n    \"\"\"TODO\"\"\"\n\n    E = 0.0818191910428  #: TODO")
+M('C14', 'lambert-constant', OC, "def _projToLambert93(coords) -> ENUCoords:   \n    \"\"\"TODO\"\"\"\n\n    E = 0.08181919106  #: TODO", "def _projToLambert93(coords) -> ENUCoords:   \n    \"\"\"TODO\"\"\"\n\n    E = 0.0818191  #: TODO", 'C14.N')
 M('C14', 'geo-degree-factor', OC, "        geo.lat *= 180.0 / math.pi", "        geo.lat *= 180.0 / 3.14159", 'C14.I')
 T('C14', 'twin-enu-temps', OC, "        enu.E = -x * slon + y * clon\n        enu.N = -x * clon * slat - y * slon * slat + z * clat", "        enu.E = y * clon - slon * x\n        north = z * clat - slat * (x * clon + y * slon)\n        enu.N = north")
 
@@ -210,7 +213,7 @@ T('C16', 'twin-dp-loop', SIM, "        if d > dmax:\n            dmax = d\n     
 # ---------------------------------------------------------------- C17
 M('C17', 'ds-3d', ANA, "    return track.getObs(i).distance2DTo(track.getObs(i - 1))", "    return track.getObs(i).distanceTo(track.getObs(i - 1))", 'C17.G')
 M('C17', 'speed-mixed-pair', ANA, "    ds = track.getObs(i + 1).position.distance2DTo(track.getObs(i - 1).position)\n    dt = track.getObs(i + 1).timestamp - track.getObs(i - 1).timestamp", "    ds = track.getObs(i + 1).position.distance2DTo(track.getObs(i).position)\n    dt = track.getObs(i + 1).timestamp - track.getObs(i - 1).timestamp", 'C17.G')
-M('C17', 'abscurv-keeps-ds', CIN, "    track.removeAnalyticalFeature(BIAF_DS)\n\n    return track.getAnalyticalFeature(BIAF_ABS_CURV)", "    return track.getAnalyticalFeature(BIAF_ABS_CURV)", 'C17.W')
+M('C17', 'abscurv-keeps-ds', CIN, "    track.removeAnalyticalFeature(BIAF_DS)\n\n    return track.getAnalyticalFeature(BIAF_ABS_CURV)", "    return track.getAnalyticalFeature(BIAF_ABS_CURV)", 'C17.G')
 M('C17', 'speed-moves-time', ANA, "    if dt == 0:\n        return NAN\n    else:\n        return ds / dt", "    if dt == 0:\n        track.getObs(i).timestamp = track.getObs(i).timestamp.addSec(1)\n        return NAN\n    else:\n        return ds / dt", 'C17.F')
 T('C17', 'twin-speed-rename', ANA, "    ds = track.getObs(i + 1).position.distance2DTo(track.getObs(i - 1).position)\n    dt = track.getObs(i + 1).timestamp - track.getObs(i - 1).timestamp", "    nxt = track.getObs(i + 1)\n    prv = track.getObs(i - 1)\n    ds = nxt.position.distance2DTo(prv.position)\n    dt = nxt.timestamp - prv.timestamp")
 
